@@ -49,6 +49,7 @@ def register_classes(res):
                                                           and str(d.get('difference', '')).startswith('values of joined block'))
     res.classes['ids_outside_int32'] = lambda d: _feat(d, 'ids_outside_int32') and not _feat(d, 'interleaved_variable_rows')
     res.classes['ids_outside_int32_nonunique'] = lambda d: _feat(d, 'ids_outside_int32') and 'non-unique' in str(d.get('error'))
+    res.classes['element_id_outside_int32'] = lambda d: _feat(d, 'element_ids_outside_int32') and 'out of bounds for int32' in str(d.get('error'))
     res.classes['frame_without_z'] = lambda d: _feat(d, 'frame_without_z') and 'Shape of passed values' in str(d.get('error'))
     res.classes['set_name_decode'] = lambda d: "'str' object has no attribute 'decode'" in str(d.get('error'))
 
@@ -188,7 +189,7 @@ def _run(res, quick, workdir):
 
     scns = corpus_scenarios()
     ncorpus = len(scns)
-    n = 160 if quick else 1600
+    n = 160 if quick else 600
     flavours = ['interleaved', 'outside', 'mixed', 'noz', 'dimleak', 'fault', 'invalid', 'plain']
     for k in range(n):
         scns.append(vmapx.gen_scenario(rng, flavours[k] if k < len(flavours) else None))
@@ -227,7 +228,12 @@ def _run(res, quick, workdir):
         if any(st == 0 and op['op'] == 'geom' for op, st in zip(scn['ops'], obs['statuses'])) and \
                 any(r[0] == 'frame' and vmapx.expected_frame(scn2, ch) is not None for ch, r in zip(scn['chains'], obs['chains'])):
             nontriv.add(json.dumps(strip(scn), sort_keys=True, default=str))
-    bad, log = common.coq_compare('C20', vmapx.REQ, terms, shard=max(8, len(terms) // (2 * common.NCPU) + 1), timeout=1200)
+    bad, log = common.coq_compare('C20', vmapx.REQ, terms, shard=max(8, len(terms) // (4 * common.NCPU) + 1), timeout=1500)
+    if bad:
+        # a shard whose coqc was killed (overloaded machine) counts all its cases as bad: re-evaluate exactly the
+        # cases reported bad, in small shards, once; only what is bad again is a disagreement
+        again, log = common.coq_compare('C20r', vmapx.REQ, [terms[i] for i in bad], shard=4, timeout=1500)
+        bad = [bad[j] for j in again]
     detail = ''
     if bad:
         diag_terms = [vmapx.scenario_term(cfg, term_scn[i][0], term_scn[i][1], fn='scenario_diag') for i in bad[:6]]
